@@ -351,3 +351,146 @@ def paths2(stmts, events, total=()):
         return {(own, "fall")}
 
     return block(stmts)
+
+
+# ------------------------------------------------------------------ completeness: no package-wide shortcut --
+CONTAINER_QUERIES = {"exists", "read_bytes", "get_image_data", "read_xml_root", "read_text", "open_stream", "get_slide_root", "get_slide_relationships",
+                     "get_comment_root", "resolve_href", "get_object", "get", "get_data"}
+NAME_TABLES = {"namelist", "_namelist"}
+
+
+def container_names(fn):
+    """Names that hold the package: receivers of member reads / existence tests, and names bound to their list of member names."""
+    cs = set()
+    for n in ast.walk(fn):
+        if isinstance(n, ast.Call) and isinstance(n.func, ast.Attribute) and n.func.attr in ("exists", "read_bytes", "get_image_data", "read_xml_root", "open_stream") \
+                and isinstance(n.func.value, ast.Name):
+            cs.add(n.func.value.id)
+    tabs = set()
+    for n in ast.walk(fn):
+        if isinstance(n, ast.Assign) and len(n.targets) == 1 and isinstance(n.targets[0], ast.Name) and isinstance(n.value, ast.Attribute) \
+                and isinstance(n.value.value, ast.Name) and n.value.value.id in cs and n.value.attr in NAME_TABLES:
+            tabs.add(n.targets[0].id)
+    return cs, tabs
+
+
+def package_wide_reasons(ck, expr, at, depth=0):
+    """Why `expr` (a guard) depends on the package as a whole rather than on the picture / part at hand: [] when it does not.
+    Allowed uses of the package: `c.exists(x)`, `x in c.namelist`, `c.read...(x)`, `c.get...(x)` -- queries about one named part."""
+    cs, tabs = ck._containers
+    why = []
+    allowed_nodes = set()
+    for n in ast.walk(expr):
+        if isinstance(n, ast.Compare) and len(n.ops) == 1 and isinstance(n.ops[0], (ast.In, ast.NotIn)):
+            c = n.comparators[0]
+            if (isinstance(c, ast.Name) and c.id in tabs) or (isinstance(c, ast.Attribute) and c.attr in NAME_TABLES and isinstance(c.value, ast.Name) and c.value.id in cs):
+                for x in ast.walk(c):
+                    allowed_nodes.add(id(x))
+        if isinstance(n, ast.Call) and isinstance(n.func, ast.Attribute) and isinstance(n.func.value, ast.Name) and n.func.value.id in cs \
+                and n.func.attr in CONTAINER_QUERIES and (n.args or n.keywords) and not all(isinstance(a, ast.Constant) for a in n.args):
+            allowed_nodes.add(id(n.func.value))
+            allowed_nodes.add(id(n.func))
+    # emptiness of the member list: an empty package has no part to read (sound shortcut)
+    for n in ast.walk(expr):
+        if isinstance(n, ast.UnaryOp) and isinstance(n.op, ast.Not) and isinstance(n.operand, ast.Name) and n.operand.id in tabs:
+            allowed_nodes.add(id(n.operand))
+        if isinstance(n, ast.Compare) and isinstance(n.left, ast.Call) and isinstance(n.left.func, ast.Name) and n.left.func.id == "len" and n.left.args \
+                and isinstance(n.left.args[0], ast.Name) and n.left.args[0].id in tabs and len(n.comparators) == 1 \
+                and isinstance(n.comparators[0], ast.Constant) and n.comparators[0].value == 0:
+            allowed_nodes.add(id(n.left.args[0]))
+    for n in ast.walk(expr):
+        if isinstance(n, ast.Name) and id(n) not in allowed_nodes:
+            if n.id in cs:
+                why.append(f"`{ast.unparse(expr)[:70]}` asks the package object `{n.id}` something that is not about one named part")
+            elif n.id in tabs:
+                why.append(f"`{ast.unparse(expr)[:70]}` looks at the whole list of member names `{n.id}`")
+            elif n.id == "self":
+                why.append(f"`{ast.unparse(expr)[:70]}` depends on object state")
+            elif depth < 3 and n.id in ck._locals and isinstance(n.ctx, ast.Load):
+                # a local flag: follow it to its definitions
+                for b in bindings_of(ck.fn, n.id):
+                    if b.kind == "assign" and b.value is not None and pos(b.node) < pos(at) and not isinstance(b.value, ast.Constant):
+                        if any(isinstance(x, ast.Name) and (x.id in cs or x.id in tabs) for x in ast.walk(b.value)):
+                            why.extend(package_wide_reasons(ck, b.value, b.node, depth + 1))
+    return why
+
+
+def _leaves(stmt):
+    """the statement can silently skip what follows: a return anywhere, a continue / break that is not caught by a loop of its own"""
+    def rec(n, in_loop):
+        if isinstance(n, ast.Return):      # (a `raise` refuses the document as a whole: nothing is returned, nothing is silently dropped)
+            return True
+        if isinstance(n, (ast.Continue, ast.Break)):
+            return not in_loop
+        if isinstance(n, (ast.FunctionDef, ast.Lambda, ast.ClassDef)):
+            return False
+        inner = in_loop or isinstance(n, (ast.For, ast.While))
+        return any(rec(c, inner) for c in ast.iter_child_nodes(n))
+    return rec(stmt, False)
+
+
+def _scan_guards(ck, targets):
+    why, seen = [], set()
+    for tnode in targets:
+        chain = [tnode] + ancestors(ck.pm, tnode)
+        for child, a in zip(chain, chain[1:]):
+            tests = []
+            if isinstance(a, (ast.If, ast.While)) and id(a) not in seen:
+                seen.add(id(a))
+                tests.append((a.test, a))
+            for fld in ("body", "orelse", "finalbody"):
+                lst = getattr(a, fld, None)
+                if isinstance(lst, list) and any(child is x for x in lst):
+                    k = [i for i, x in enumerate(lst) if child is x][0]
+                    for prev in lst[:k]:
+                        if isinstance(prev, ast.If) and id(prev) not in seen and _leaves(prev):
+                            seen.add(id(prev))
+                            for x in ast.walk(prev):
+                                if isinstance(x, ast.If):
+                                    tests.append((x.test, x))
+            for (t, at) in tests:
+                why.extend(package_wide_reasons(ck, t, at))
+    return why
+
+
+def completeness(ck, label="every-placed-picture-is-considered"):
+    """No guard on the way to an image depends on the package as a whole (a folder name, a count of members, a flag of the context):
+    such a shortcut drops pictures of documents that are laid out differently.  Guards may ask the package about ONE named part.
+    Checked in the function that builds the images and at the calls of that function in the same module."""
+    from contracts.c14_flow import local_names
+    ck._containers = container_names(ck.fn)
+    ck._locals = local_names(ck.fn)
+    if not ck._containers[0]:
+        return ck.unknown("completeness", label, "no package object found in the function: shape not recognised")
+    targets = [n for n in ast.walk(ck.fn) if isinstance(n, ast.Call) and (
+        (isinstance(n.func, ast.Name) and n.func.id[:1].isupper() and n.func.id.endswith("Image")) or
+        (isinstance(n.func, ast.Attribute) and n.func.attr in ("read_bytes", "get_image_data")))]
+    if not targets:
+        return ck.unknown("completeness", label, "no image construction / member read found: shape not recognised")
+    why = _scan_guards(ck, targets)
+    # callers in the same module (two levels): guards on the way to the call
+    cparams = [k for k, a in enumerate(ck.raw_fn.args.args) if a.arg in ck._containers[0]] if ck.raw_fn is not None else []
+    todo, done_ = [(ck.real, cparams)], set()
+    for _level in range(2):
+        nxt = []
+        for (callee, cpos) in todo:
+            for q, f in ck.mod.functions.items():
+                if q == callee or (q, callee) in done_ or not isinstance(f, ast.FunctionDef):
+                    continue
+                calls = [n for n in ast.walk(f) if isinstance(n, ast.Call) and dotted(n.func).split(".")[-1] == callee.split(".")[-1]]
+                if not calls:
+                    continue
+                done_.add((q, callee))
+                sub = Checker("C14", ck.rel, q, ck.mod.repo, inline=False)
+                cs, tabs = container_names(sub.fn)
+                for c in calls:
+                    for k in cpos:
+                        if k < len(c.args) and isinstance(c.args[k], ast.Name):
+                            cs.add(c.args[k].id)
+                sub._containers = (cs, tabs)
+                sub._locals = local_names(sub.fn)
+                why.extend(f"in {q}: {w}" for w in _scan_guards(sub, calls))
+                nxt.append((q, [k for k, a in enumerate(f.args.args) if a.arg in cs]))
+        todo = nxt
+    why = sorted(set(why))
+    ck.add("completeness", label, not why, "; ".join(why)[:500], definite=False)
